@@ -1,6 +1,7 @@
 /-
   C19 — `patCompare` against the glob semantics of the matching specification
-  (CpeSpec.glob), for value strings without quoted characters.
+  (CpeSpec.glob): the generic lemmas about `glob` and the loop of `patCompare`
+  (the theorem itself is in CpeClean.lean).
 -/
 import ClairModel.Proofs.Cpe
 
@@ -213,59 +214,10 @@ theorem patLoop_iff (l r : Option Nat) (core : Str) (idx : Nat) (t : Str) :
         simp at this hc hj
         omega
 
-/-! ### tokens of a string without quoting -/
-
-theorem tokensAux_noquote (s : Str) (h : 92 ∉ s) : tokensAux false s = s.map tokOf := by
-  induction s with
-  | nil => rfl
-  | cons c rest ih =>
-    have hc : c ≠ 92 := fun e => h (by simp [e])
-    have hr : 92 ∉ rest := fun e => h (by simp [e])
-    simp [tokensAux, hc, ih hr]
-
-theorem unquoteAux_noquote (s : Str) (h : 92 ∉ s) : unquoteAux false s = s := by
-  induction s with
-  | nil => rfl
-  | cons c rest ih =>
-    have hc : c ≠ 92 := fun e => h (by simp [e])
-    have hr : 92 ∉ rest := fun e => h (by simp [e])
-    simp [unquoteAux, hc, ih hr]
-
 theorem map_tokOf_leadStr (w : Option Nat) : (leadStr w).map tokOf = leadToks w := by
   cases w <;> simp [leadStr, leadToks, tokOf]
-
-theorem map_tokOf_clean (c : Str) (h : ∀ x ∈ c, x ≠ 42 ∧ x ≠ 63) : c.map tokOf = c.map .lit := by
-  apply List.map_congr_left
-  intro x hx
-  simp [tokOf, (h x hx).1, (h x hx).2]
 
 theorem lower_eq_map : lower = List.map CpeSpec.lowerC := by
   funext s; rfl
 
-theorem not_mem_lower (s : Str) (h : 92 ∉ s) : 92 ∉ lower s := by
-  intro hm
-  simp only [lower, List.mem_map] at hm
-  obtain ⟨c, hc, he⟩ := hm
-  have := (lowerC_eq_iff c 92 (by omega)).1 he
-  exact h (this ▸ hc)
-
-/-- The literal part of a pattern (what `patCompare` searches for) has no
-    wildcard characters left in it. -/
-def coreClean (s : Str) : Prop :=
-  ∀ x ∈ (stripTrail (stripLead (lower s)).2).2, x ≠ 42 ∧ x ≠ 63
-
-theorem patCompare_eq_spec (s t : Str) (hs : 92 ∉ s) (ht : 92 ∉ t) (hc : coreClean s) :
-    patCompare s t = CpeSpec.globMatches s t := by
-  have e1 := stripLead_eq (lower s)
-  have e2 := stripTrail_eq (stripLead (lower s)).2
-  have htoks : tokens (lower s) =
-      leadToks (stripLead (lower s)).1 ++
-        ((stripTrail (stripLead (lower s)).2).2.map .lit ++ leadToks (stripTrail (stripLead (lower s)).2).1) := by
-    rw [tokens, tokensAux_noquote _ (not_mem_lower s hs)]
-    conv => lhs; rw [e1, e2]
-    simp only [List.map_append, map_tokOf_leadStr, map_tokOf_clean _ hc]
-  apply Bool.eq_iff_iff.2
-  unfold patCompare CpeSpec.globMatches
-  rw [← lower_eq_map, htoks, unquote, unquoteAux_noquote _ (not_mem_lower t ht), glob_pattern, patLoop_iff]
-  simp
 end ClairModel.Cpe
